@@ -25,7 +25,8 @@ CLAIMS = {
         text="Theorems: Smt.unsat_sound (a trace accepted by the executable checker makes the traced assertions unsatisfiable), "
              "C08_certified_split (two such refutations are Craig's conditions), the labelled-interpolation-system theorem (for "
              "every refutation and every labelling, McMillan/Pudlak/McMillan'/proof-sensitive included, the root partial "
-             "interpolant is implied by A, inconsistent with B, and over shared variables) and the Farkas / dual Farkas "
+             "interpolant is implied by A, inconsistent with B, and over shared variables; leaves may be theory lemmas that carry a "
+             "partial interpolant meeting the two leaf conditions) and the Farkas / dual Farkas "
              "interpolant theorems. Tie: for generated incremental scripts over QF_UF/QF_LRA/QF_LIA with named assertions, all "
              "interpolation algorithms, strength factors, proof reduction and simplification levels, every printed interpolant of "
              "random groupings is re-decided: A+not I and I+B must be refuted by a fresh run whose trace the Lean machine "
@@ -41,7 +42,8 @@ CLAIMS = {
     "C09": dict(
         technique="Lean 4 proof (path property of labelled interpolation systems for two consecutive cuts of one refutation; checker soundness; step condition from certified refutations) tied by a two-cut mirror of the printed proof and by certified re-decision of every printed interpolant sequence",
         text="Theorem C09_labelled_path_step: for every resolution refutation labelled for two consecutive cuts with labels that fit "
-             "(pairOK; system_pairOK proves McMillan, Pudlak and McMillan' fit), I_j and the middle group imply I_(j+1). Tie: (1) as "
+             "(pairOK; system_pairOK proves McMillan, Pudlak and McMillan' fit), I_j and the middle group imply I_(j+1); theory lemmas "
+             "enter as leaves with a pair of partial interpolants that meet the two-cut leaf condition. Tie: (1) as "
              "C08 for requests with 3-5 groups: every member is re-decided as a Craig interpolant of its cumulative split and "
              "I_j + G_(j+1) + not I_(j+1) must be refuted by a run the Lean machine accepts (C09_path_from_splits); (2) mirror: on "
              "propositional instances the printed proof with its leaves assigned to the groups is labelled for both cuts around "
